@@ -127,11 +127,13 @@ fn c11_discard_one_cluster() {
         // the old cluster is no longer referenced by the new entry
         assert!(spec::l2_allocation(new.0, g.cb).1 == 0);
         assert!(h.is_dirty() && env.need_flush_meta());
-        assert!(env.nrec.get() == 2);
-        let f = env.get_rec(0);
-        assert!(f.kind == K_FREE && f.off == a_first && f.len as u64 == a_cnt);
-        let p = env.get_rec(1);
-        assert!(p.kind == K_FALLOC && p.off == a_first && p.len as u64 == a_cnt << g.cb);
+        // released exactly once, punched exactly once, release before punch
+        assert!(env.count(K_FREE) == 1 && env.count(K_FALLOC) == 1);
+        assert!(env.first(K_FREE) < env.first(K_FALLOC));
+        let f = env.get_rec(env.first(K_FREE));
+        assert!(f.off == a_first && f.len as u64 == a_cnt);
+        let p = env.get_rec(env.first(K_FALLOC));
+        assert!(p.off == a_first && p.len as u64 == a_cnt << g.cb);
         assert!(p.off & (cs - 1) == 0 && p.len > 0);
         kani::cover!(has_back && d.kind == spec::Kind::Data);
         kani::cover!(!has_back && d.kind == spec::Kind::Data);
